@@ -70,6 +70,26 @@ fn overflowing_number_string(s: &str) -> bool {
     false
 }
 
+/// The escape `\uFEFF` inside double-quoted scalars written out as the character itself: in the middle of
+/// a line U+FEFF is an ordinary character of the text, whatever the encoding (only a leading one is a mark).
+fn raw_feff(text: &str) -> String {
+    let mut out = String::with_capacity(text.len());
+    let mut rest = text;
+    let mut backslashes = 0usize;
+    while let Some(c) = rest.chars().next() {
+        if backslashes % 2 == 0 && rest.starts_with("\\uFEFF") && !out.is_empty() && !out.ends_with('\n') {
+            out.push('\u{feff}');
+            rest = &rest[6..];
+            backslashes = 0;
+            continue;
+        }
+        backslashes = if c == '\\' { backslashes + 1 } else { 0 };
+        out.push(c);
+        rest = &rest[c.len_utf8()..];
+    }
+    out
+}
+
 fn class_of(v: &V, to: &str) -> &'static str {
     if to == "yaml" && v.any(&|x| matches!(x, V::Str(s) if overflowing_number_string(s))) {
         "yaml_plain_overflowing_number"
@@ -161,7 +181,7 @@ pub fn record_translate(out_path: &str, count: u64) {
                         if from != "yaml" {
                             continue;
                         }
-                        let text = String::from_utf8(bytes).unwrap();
+                        let text = raw_feff(&String::from_utf8(bytes).unwrap());
                         bytes = val::reencode(&text, *rng.pick(&val::ENCODINGS), rng.chance(1, 2));
                     }
                     let bytes = Rc::new(bytes);
